@@ -2,6 +2,7 @@ import Driver.Codec
 import Driver.Solve
 import Driver.Text
 import Driver.Cli
+import Driver.Composite
 open Ezpz Ezpz.Driver
 
 /-- Discrete signature and float payload of one kernel evaluation (for the stability probe). -/
@@ -65,6 +66,7 @@ def step (line : String) : String :=
   | ["T"] => runText [""]   -- the empty text: its (empty) hex token is trimmed away with the line end
   | "T" :: ts => runText ts
   | "C" :: ts => runCli ts
+  | "X" :: ts => runComposite ts
   | _ => "bad-op"
 
 partial def loop (h : IO.FS.Stream) (out : IO.FS.Stream) : IO Unit := do
